@@ -13,8 +13,8 @@ From V Require Import Lib.Utf8 Gen.Trie.
 Import ListNotations.
 Local Open Scope Z_scope.
 
-Definition word := list Z.      (* rune values *)
-Definition bytes := list Z.     (* 0..255 *)
+Notation word := (list Z) (only parsing).      (* rune values *)
+Notation bytes := (list Z) (only parsing).     (* 0..255 *)
 
 Inductive res (A : Type) : Type := Ok (a : A) | Panic | NoFuel.
 Arguments Ok {A} a.
@@ -179,15 +179,16 @@ Fixpoint process (fuel : nat) (T : trie) (q : queue) (curr : word) (cs : list Z)
                  end
   end.
 
-Fixpoint bfs (fuel cfuel : nat) (T : trie) (q : queue) : option trie :=
+(* the fail chain of a node strictly decreases the depth: depth + 1 steps always suffice for the inner loop *)
+Fixpoint bfs (fuel : nat) (T : trie) (q : queue) : option trie :=
   match fuel with
   | O => None
   | S k => match q_pop q with
            | (_, None) => Some T
            | (q', Some curr) =>
-               match process cfuel T q' curr (kids_of T curr) with
+               match process (S (length curr)) T q' curr (kids_of T curr) with
                | None => None
-               | Some (T', q'') => bfs k cfuel T' q''
+               | Some (T', q'') => bfs k T' q''
                end
            end
   end.
@@ -195,7 +196,7 @@ Fixpoint bfs (fuel cfuel : nat) (T : trie) (q : queue) : option trie :=
 Definition init_links (T : trie) : trie * queue :=
   fold_left (fun (st : trie * queue) c => (set_fail (fst st) [c] [], q_push (snd st) [c])) (kids_of T []) (T, q_init).
 Definition build (T : trie) : option trie :=
-  let (T1, q1) := init_links T in bfs (S (length T)) (S (length T)) T1 q1.
+  let (T1, q1) := init_links T in bfs (S (length T)) T1 q1.
 
 (* ------------------------------------------------------------------ the automaton step *)
 (* idx := index(node.children, v); for node != root && idx < 0 { node = node.fail; idx = index(node.children, v) } *)
@@ -218,24 +219,25 @@ Fixpoint any_output (fuel : nat) (T : trie) (tmp : word) : res bool :=
                   else match fail_of T tmp with None => Panic | Some f => any_output k T f end
            end
   end.
-Fixpoint match_go (fuel : nat) (T : trie) (nd : word) (toks : list (Z * nat)) : res bool :=
+(* fuel of the two fail-chain loops: the depth of the node they start from, plus one *)
+Fixpoint match_go (T : trie) (nd : word) (toks : list (Z * nat)) : res bool :=
   match toks with
   | [] => Ok false
   | (v, _) :: rest =>
-      match goto fuel T nd v with
+      match goto (S (length nd)) T nd v with
       | Ok (n, idx) =>
           if 0 <=? idx then
             let n' := child_at T n idx in
-            match any_output fuel T n' with
+            match any_output (S (length n')) T n' with
             | Ok true => Ok true
-            | Ok false => match_go fuel T n' rest
+            | Ok false => match_go T n' rest
             | Panic => Panic | NoFuel => NoFuel
             end
-          else match_go fuel T n rest
+          else match_go T n rest
       | Panic => Panic | NoFuel => NoFuel
       end
   end.
-Definition match_ (T : trie) (text : bytes) : res bool := match_go (S (length T)) T [] (tokens text).
+Definition match_ (T : trie) (text : bytes) : res bool := match_go T [] (tokens text).
 
 (* find's inner loop: for tempNode != root { if tempNode.isEnd { append scope{i - size, i} }; tempNode = tempNode.fail };
    acc is the scope list reversed *)
@@ -248,24 +250,24 @@ Fixpoint outputs (fuel : nat) (T : trie) (tmp : word) (i : Z) (acc : list (Z * Z
                   match fail_of T tmp with None => Panic | Some f => outputs k T f i acc' end
            end
   end.
-Fixpoint find_go (fuel : nat) (T : trie) (nd : word) (i : Z) (toks : list (Z * nat)) (acc : list (Z * Z)) : res (list (Z * Z)) :=
+Fixpoint find_go (T : trie) (nd : word) (i : Z) (toks : list (Z * nat)) (acc : list (Z * Z)) : res (list (Z * Z)) :=
   match toks with
   | [] => Ok (rev acc)
   | (v, w) :: rest =>
       let i' := i + Z.of_nat w in
-      match goto fuel T nd v with
+      match goto (S (length nd)) T nd v with
       | Ok (n, idx) =>
           if 0 <=? idx then
             let n' := child_at T n idx in
-            match outputs fuel T n' i' acc with
-            | Ok acc' => find_go fuel T n' i' rest acc'
+            match outputs (S (length n')) T n' i' acc with
+            | Ok acc' => find_go T n' i' rest acc'
             | Panic => Panic | NoFuel => NoFuel
             end
-          else find_go fuel T n i' rest acc
+          else find_go T n i' rest acc
       | Panic => Panic | NoFuel => NoFuel
       end
   end.
-Definition find (T : trie) (text : bytes) : res (list (Z * Z)) := find_go (S (length T)) T [] 0 (tokens text) [].
+Definition find (T : trie) (text : bytes) : res (list (Z * Z)) := find_go T [] 0 (tokens text) [].
 
 (* FindAll: keywords[i] = text[v.start:v.stop] *)
 Fixpoint slices (text : bytes) (sc : list (Z * Z)) : res (list bytes) :=
@@ -283,7 +285,7 @@ Definition find_all (T : trie) (text : bytes) : res (list bytes) :=
 
 (* ------------------------------------------------------------------ mergeScopes (with the step back after a merge) *)
 (* zipper rendering of the index loop: done = scopes[:i] reversed, cur = scopes[i], rest = scopes[i+1:] *)
-Definition iv := (Z * Z)%type.
+Notation iv := (Z * Z)%type (only parsing).
 Fixpoint merge_go (fuel : nat) (done : list iv) (cur : iv) (rest : list iv) : option (list iv) :=
   match fuel with
   | O => None
@@ -385,12 +387,12 @@ Definition prefix_search (T : trie) (key : bytes) : res (list bytes) :=
   end.
 
 (* the walk of FuzzySearch: automaton transitions, nil when a rune has no transition even from the root *)
-Fixpoint fuzzy_walk (fuel : nat) (T : trie) (nd : word) (toks : list (Z * nat)) : res (option word) :=
+Fixpoint fuzzy_walk (T : trie) (nd : word) (toks : list (Z * nat)) : res (option word) :=
   match toks with
   | [] => Ok (Some nd)
   | (v, _) :: rest =>
-      match goto fuel T nd v with
-      | Ok (n, idx) => if 0 <=? idx then fuzzy_walk fuel T (child_at T n idx) rest else Ok None
+      match goto (S (length nd)) T nd v with
+      | Ok (n, idx) => if 0 <=? idx then fuzzy_walk T (child_at T n idx) rest else Ok None
       | Panic => Panic | NoFuel => NoFuel
       end
   end.
@@ -427,7 +429,7 @@ Definition fuzzy_search (T : trie) (key : bytes) : res (list bytes) :=
   match key with
   | [] => prefix_search T key
   | _ =>
-      match fuzzy_walk (S (length T)) T [] (tokens key) with
+      match fuzzy_walk T [] (tokens key) with
       | Ok None => Ok []
       | Ok (Some nd) =>
           match get T nd with
@@ -440,7 +442,7 @@ Definition fuzzy_search (T : trie) (key : bytes) : res (list bytes) :=
                   | Some s => Ok [s] | None => Panic
                   end
                 else Ok []
-              else fuzzy_loop (S (length T)) T key nd []
+              else fuzzy_loop (S (length nd)) T key nd []
           end
       | Panic => Panic | NoFuel => NoFuel
       end
